@@ -5,7 +5,8 @@ ROOT = os.path.dirname(os.path.dirname(os.path.abspath(__file__)))
 
 TB = ("Trusted base: Lean 4.33 kernel; axioms propext, Classical.choice, Quot.sound only (audited per theorem by #print axioms; "
       "no native_decide, no bv_decide, no sorry); the correspondence check (tools/*.py + harness/) that ties the hand model to "
-      "the code; rustc. ")
+      "the code; rustc. The source text of the hand-modelled functions is pinned (xlate/pins.spec, pins.expected): when one differs from the text its "
+      "model was written from, the correspondence runs with three seeds and the evidence names the function. ")
 
 SYN = ("Modelled, not verified: logos' derived automaton as longest match + rule priority + one-char error tokens (rule table, priorities, "
        "callback and skip flags are regenerated from kind.rs); rowan's GreenNodeBuilder as a stack of open nodes; the translator xlate "
